@@ -63,6 +63,9 @@ func cases(run *vf.Run) ([]json.RawMessage, error) {
 	// demonstration case: one premature EOF on the baseline download after the
 	// local meta directory was lost (scripted, independent of the seed)
 	out = append(out, vf.Spec(spec{Seed: 1, Ops: 0, Cfg: hist.Config{PageSize: 4096, MinCheckpointPageN: 1000, CheckpointInterval: int64(24 * time.Hour)}, Sched: Schedule{Target: OpOpen}, Demo: "baseline-download-premature-eof"}))
+	// demonstration case: a snapshot reaches the replica while level-0 uploads
+	// keep failing, then the process restarts without its meta directory
+	out = append(out, vf.Spec(spec{Seed: 2, Ops: 0, Cfg: hist.Config{PageSize: 4096, MinCheckpointPageN: 1000, CheckpointInterval: int64(24 * time.Hour)}, Sched: Schedule{Target: OpWrite}, Demo: "snapshot-ahead-of-l0-then-meta-loss"}))
 	for i := 0; i < n; i++ {
 		rng := rand.New(rand.NewSource(vf.SubSeed(run.Seed, "C05", i)))
 		cfg := hist.RandomConfig(rng)
@@ -218,6 +221,18 @@ func runCase(run *vf.Run, raw json.RawMessage, dir string) *vf.Result {
 
 	ctx := context.Background()
 	lastK := int64(-1)
+	// Fingerprint of one cause of wrong restores: a restart without the local
+	// meta directory at a moment when the replica held derived files (a
+	// snapshot uploaded while level-0 uploads kept failing) but no level-0
+	// file. litestream looks for its baseline at level 0 only, restarts the
+	// TXID sequence at 1 and the new chain collides with the published TXIDs.
+	txidRestart := false
+	fp := func(key string) string {
+		if txidRestart {
+			return key + ":meta-lost-while-replica-had-no-l0"
+		}
+		return key
+	}
 	// (c) after every step
 	stepCheck := func(tag string) bool {
 		if len(e.ReplicaFiles()) == 0 {
@@ -227,16 +242,16 @@ func runCase(run *vf.Run, raw json.RawMessage, dir string) *vf.Result {
 		res.Evals++
 		res.Count("step_restores", 1)
 		if err != nil {
-			res.Violate("step-restore-failed", "%s: Restore(latest) through a fault-free view of the store fails: %v [%s; %s]", tag, err, s.Sched, s.Cfg)
+			res.Violate(fp("step-restore-failed"), "%s: Restore(latest) through a fault-free view of the store fails: %v [%s; %s]", tag, err, s.Sched, s.Cfg)
 			return false
 		}
 		k, why := e.CheckConsistent(img)
 		if why != "" {
-			res.Violate("step-restore-inconsistent", "%s: Restore(latest) through a fault-free view is not a committed state: %s [%s; %s]", tag, why, s.Sched, s.Cfg)
+			res.Violate(fp("step-restore-inconsistent"), "%s: Restore(latest) through a fault-free view is not a committed state: %s [%s; %s]", tag, why, s.Sched, s.Cfg)
 			return false
 		}
 		if k < lastK {
-			res.Violate("step-restore-regressed", "%s: Restore(latest) went back from commit k=%d to k=%d [%s; %s]", tag, lastK, k, s.Sched, s.Cfg)
+			res.Violate(fp("step-restore-regressed"), "%s: Restore(latest) went back from commit k=%d to k=%d [%s; %s]", tag, lastK, k, s.Sched, s.Cfg)
 			return false
 		}
 		lastK = k
@@ -261,7 +276,8 @@ func runCase(run *vf.Run, raw json.RawMessage, dir string) *vf.Result {
 			return false
 		}
 		if v != "" {
-			res.Violate("ack-restore-differs", "%s [%s; %s]", v, s.Sched, s.Cfg)
+			key := fp("ack-restore-differs")
+			res.Violate(key, "%s [%s; %s]", v, s.Sched, s.Cfg)
 			return false
 		}
 		return true
@@ -319,6 +335,10 @@ func runCase(run *vf.Run, raw json.RawMessage, dir string) *vf.Result {
 			res.Count("reopen_new_object", 1)
 		case 2:
 			meta := e.LS.MetaPath()
+			if len(oracle.ListLevel(e.RepPath, 0)) == 0 && len(e.ReplicaFiles()) > 0 {
+				txidRestart = true
+				e.Logf("note: the replica holds %v and no level-0 file at this restart", e.ReplicaFiles())
+			}
 			if rerr := os.RemoveAll(meta); rerr != nil {
 				res.HarnessErr = rerr.Error()
 				return false
@@ -337,6 +357,41 @@ func runCase(run *vf.Run, raw json.RawMessage, dir string) *vf.Result {
 
 	px.Enable(true)
 	var ops []string
+	if s.Demo == "snapshot-ahead-of-l0-then-meta-loss" {
+		// level-0 uploads fail (before taking effect) from the start; listings,
+		// and the snapshot upload to level 9, work
+		px.Enable(false)
+		px.ForceAll(OpWrite, 0, KindFailBefore)
+		for i := 0; i < 2; i++ {
+			px.BeginStep(i, int64(i))
+			if _, err := e.AppWriteKind("ins-small"); err != nil {
+				res.HarnessErr = err.Error()
+				return res
+			}
+			if acked, ok := syncAndWait(fmt.Sprintf("demo op%d SyncAndWait", i)); !ok || acked {
+				if acked {
+					res.HarnessErr = "demo: upload was expected to fail"
+				}
+				return res
+			}
+			flush()
+		}
+		px.BeginStep(2, 2)
+		_, err := e.LS.Snapshot(ctx)
+		e.Logf("Snapshot err=%v", err)
+		flush()
+		e.Logf("  state: local L0 max=%d; store %v", localPos(), e.ReplicaFiles())
+		px.BeginStep(3, 3)
+		if !closeAndReopen("demo op3", 2) {
+			return res
+		}
+		flush()
+		px.ClearForced() // faults stop here
+		ops = append(ops, "demo")
+		if !stepCheck("demo") {
+			return res
+		}
+	}
 	if s.Demo == "baseline-download-premature-eof" {
 		// three replicated transactions, restart without the local meta
 		// directory, the baseline fetch ends early once; no other fault ever
@@ -487,6 +542,7 @@ func runCase(run *vf.Run, raw json.RawMessage, dir string) *vf.Result {
 		if !flush() {
 			return res
 		}
+		e.Logf("  state: local L0 max=%d; store %v", localPos(), e.ReplicaFiles())
 		// the store changes only through client calls: a step without any
 		// cannot change what Restore(latest) returns
 		if px.NumCalls() == callsBefore {
